@@ -325,6 +325,30 @@ fn tcp_outcome(rt: &tokio::runtime::Runtime, stream: &[u8], r: &Run) -> Result<(
         let (server, _) = listener.accept().await.map_err(|e| e.to_string())?;
         let mut conn = Connection::new("peer".to_string());
         conn.with_socket(server);
+        // the receiving side runs as its own task: if it spins (never returns although the stream
+        // has ended) it only exhausts its own cooperative budget and this loop still gets its turns
+        enum Got2 {
+            Frame(Vec<u8>),
+            End(Terminal),
+        }
+        let (tx, mut rx) = tokio::sync::mpsc::unbounded_channel::<Got2>();
+        let reader = tokio::spawn(async move {
+            loop {
+                match conn.recv_frame().await {
+                    Ok(Some(f)) => {
+                        let _ = tx.send(Got2::Frame(crate::c07::frame_bytes(&f)));
+                    }
+                    Ok(None) => {
+                        let _ = tx.send(Got2::End(Terminal::Eof));
+                        break;
+                    }
+                    Err(e) => {
+                        let _ = tx.send(Got2::End(Terminal::Err(format!("{:?}", e))));
+                        break;
+                    }
+                }
+            }
+        });
         let mut frames = vec![];
         let terminal;
         let mut keep = writer;
@@ -337,14 +361,14 @@ fn tcp_outcome(rt: &tokio::runtime::Runtime, stream: &[u8], r: &Run) -> Result<(
             // buffered data into a spurious "waiting"
             tokio::select! {
                 biased;
-                r = conn.recv_frame() => match r {
-                    Ok(Some(f)) => frames.push(crate::c07::frame_bytes(&f)),
-                    Ok(None) => {
-                        terminal = Terminal::Eof;
+                m = rx.recv() => match m {
+                    Some(Got2::Frame(f)) => frames.push(f),
+                    Some(Got2::End(t)) => {
+                        terminal = t;
                         break;
                     }
-                    Err(e) => {
-                        terminal = Terminal::Err(format!("{:?}", e));
+                    None => {
+                        terminal = Terminal::Err("panic: the receiving task died".to_string());
                         break;
                     }
                 },
@@ -359,6 +383,7 @@ fn tcp_outcome(rt: &tokio::runtime::Runtime, stream: &[u8], r: &Run) -> Result<(
                 }
             }
         }
+        reader.abort();
         drop(held_socket);
         Ok((frames, terminal))
     })
@@ -414,7 +439,13 @@ fn unseamed_part(ctx: &Ctx) -> (u64, u64) {
     let mut bad = 0;
     for r in res.into_iter().flatten() {
         bad += 1;
-        ctx.machinery_error(format!("unseamed replay mismatch: {}", r));
+        if r.starts_with("loopback TCP run failed") {
+            ctx.machinery_error(format!("unseamed replay: {}", r));
+        } else {
+            // the in-memory outcome of the same run was judged against the reference decoder in
+            // the E-SEG part; a different outcome over a real socket is the real path misbehaving
+            ctx.violation("socket-path-decodes-differently", r.clone(), json!({"kind": "unseamed", "text": r}));
+        }
     }
     (cases.len() as u64, bad)
 }
@@ -616,11 +647,17 @@ pub fn run(ctx: &Ctx) -> Outcome {
     o.assume("an error is due once the whole undecodable message (or the 5-byte header of an oversized one, or the 68 bytes of a handshake with a wrong protocol string) has been delivered; unknown ids in the alphabet are 9 and 20; id 0x54 (which this implementation uses to recognise a handshake by its fifth byte) is deliberately outside the alphabet");
     o.assume("E-SYS part: 2 directions x 3 valid prefixes x 9 undecodable/closed/reset endings x {one read, split after 5 bytes} in a real PeerHandler::run() task with the real manager; the task must have ended and the manager must have dropped the peer in the quiescent step in which the last offending byte / EOF / RST arrived");
     o.assume("unseamed replays: a covering set of streams (every single message, pairs) in three segmentation/ending shapes is also sent over a real loopback TCP connection into an unhooked Connection::with_socket; frames and ending must equal those of the in-memory pipe branch (a mismatch is a machinery error, not a verdict)");
+    o.assume("loopback conformance replays (a subset of the streams over a real socket pair, real clock) must give the same frames and ending as the in-memory run, which E-SEG judged against the reference; a difference is reported as a violation of the real-socket path, a run that cannot be set up as a machinery error");
     o.assume("reference stream decoder refwire.rs; recv_frame is polled with a no-op waker, Pending = the client asks for more bytes");
     o
 }
 
 pub fn replay(_ctx: &Ctx, r: &Value) -> i32 {
+    if r["kind"] == "unseamed" {
+        println!("recorded outcome of the loopback replay: {}", r["text"].as_str().unwrap_or(""));
+        println!("(a timing-dependent real-socket run; `./check C06` repeats all of them)");
+        return 1;
+    }
     if r["kind"] == "termination" {
         let c = TermCase { outgoing: r["outgoing"].as_bool().unwrap(), prefix: r["prefix"].as_u64().unwrap() as usize, ending: r["ending"].as_u64().unwrap() as usize, split: r["split"].as_bool().unwrap() };
         let dir = core::private_cwd("c06", "replay");
